@@ -73,6 +73,9 @@ KNOWN = [
     ("C04", "C04 whitespace-only lines of a def formula captured from CRLF text are emptied when read back",
      "a def formula given as CRLF text with a whitespace-only line inside a triple-quoted string: after write/read the line is empty and the value changes",
      "findings/c04_witnesses.py::crlf_blank_line"),
+    ("C04", "C04 a reference to a module that cannot be imported by name is written without error and cannot be read back",
+     "`A.mod = types.ModuleType('dyn')` (a module object that `import dyn` cannot find): write succeeds and emits (\"Module\", \"dyn\"); read_model raises ModuleNotFoundError. A repair needs a pre-write validation pass (about 40 lines): not small",
+     "findings/c04_witnesses.py"),
     ("C14", "C14-S consecutive failed saves push the last good copy down",
      "two (or more) consecutive failed directory saves: each partial output is rotated into _BAK1, the last good copy moves to _BAK2, _BAK3 and is deleted after the fourth failure",
      "findings/c14_witnesses.py::S"),
